@@ -196,7 +196,9 @@ func (r *Route) TargetConfig(t *Target, addWeight bool) string {
 func (r *Route) config(addWeight bool) []string {
 	var cfg []string
 	for _, t := range r.Targets {
-		if t.Weight <= 0 {
+		// a target which receives no traffic is only left out of the list of
+		// effective weights: it is part of the table and of its config
+		if addWeight && t.Weight <= 0 {
 			continue
 		}
 		cfg = append(cfg, r.TargetConfig(t, addWeight))
